@@ -1,6 +1,7 @@
 //! Family binary: codecs and negotiation (C14, C15, C25, C57).
+mod c14;
 mod c57;
 
 fn main() {
-    mc::main_dispatch(&[("C57", c57::run, c57::META)]);
+    mc::main_dispatch(&[("C14", c14::run, c14::META), ("C57", c57::run, c57::META)]);
 }
